@@ -445,3 +445,30 @@ class Check:
               f"wall={ev['wall_s']}s")
         sys.stdout.flush()
         return 1 if nviol else 0
+
+
+
+class Hang(BaseException):
+    """an SDK call did not return within its time limit (BaseException: not swallowed by `except Exception`)"""
+
+
+class deadline:
+    """`with deadline(s):` - raises Hang inside the block when it runs longer than s seconds.  SIGALRM based (lock acquires are
+    interruptible by signals on POSIX), so only usable in the main thread of a process."""
+
+    def __init__(self, seconds):
+        self.seconds = seconds
+
+    def __enter__(self):
+        import signal
+
+        def handler(sig, frame):
+            raise Hang()
+        self.old = signal.signal(signal.SIGALRM, handler)
+        signal.setitimer(signal.ITIMER_REAL, self.seconds)
+
+    def __exit__(self, *a):
+        import signal
+        signal.setitimer(signal.ITIMER_REAL, 0)
+        signal.signal(signal.SIGALRM, self.old)
+        return False
